@@ -295,6 +295,20 @@ Theorem C12_no_usable_owner_no_cands : forall cl cfg st values k t s rq,
   replica_cands cl cfg rq (route_source cl (ex_pol cfg) rq (st_table st)) = [].
 Proof. exact no_usable_owner_no_cands. Qed.
 
+(* ---- the executable property predicate IS the property ----------------------------------------------
+   prop_obs_ok (evaluated by the driver after the acceptor refused; false = `viol`) with the token the
+   request carries is route_prop for that observation, in both directions *)
+Theorem C12_prop_obs_complete : forall cl cfg st values spec_tok obs,
+  (forall t, spec_tok = Some t ->
+     PartKey.ps_calculate_token true (st_part st) (st_ncols st) (st_wire st) values = Ok (Some t)) ->
+  route_prop cl cfg st values obs -> prop_obs_ok cl cfg st values spec_tok obs = true.
+Proof. exact prop_obs_complete. Qed.
+
+Theorem C12_prop_obs_sound : forall cl cfg st values t obs,
+  PartKey.ps_calculate_token true (st_part st) (st_ncols st) (st_wire st) values = Ok (Some t) ->
+  prop_obs_ok cl cfg st values (Some t) obs = true -> route_prop cl cfg st values obs.
+Proof. exact prop_obs_sound. Qed.
+
 (* the well-formedness test the driver runs on its input is sound *)
 Theorem C12_pool_wfb_sound : forall p, pool_wfb p = true -> pool_wf p.
 Proof. exact pool_wfb_sound. Qed.
@@ -481,6 +495,19 @@ Example C12_ex_no_replica :
   route_ok ex_cl2 cfg (ex_stmt 1) ex_values (Some (1%N, 3%N)) = false.
 Proof. repeat split; vm_compute; reflexivity. Qed.
 
+(* resharding and the surplus of a connection that was asked for a shard: the node goes from 4 shards to
+   2 while two replacement connections are under way; the first one rebuilds the pool, the second one
+   lands on the same (new) shard and is dropped at once *)
+Example C12_ex_reshard :
+  let o (i s : N) := mkConn i (Some (s, 4, 0)%N) in let n (i s : N) := mkConn i (Some (s, 2, 0)%N) in
+  let evs := [EvReady (o 1%N 0%N) false; EvReady (o 2%N 1%N) true; EvReady (o 3%N 2%N) true; EvReady (o 4%N 3%N) true;
+              EvBroken (o 2%N 1%N); EvBroken (o 3%N 2%N); EvReady (n 5%N 1%N) true; EvReady (n 6%N 1%N) true] in
+  rf_view (pool_run (PerShard 1) evs) = PoolSharded 2 0 [[]; [n 5%N 1%N]] /\
+  refill_ok (PerShard 1) evs [1]%N = true /\ refill_ok (PerShard 1) evs [0; 1; 1]%N = false /\
+  refill_dropped (PerShard 1) evs = 3%nat /\
+  refill_ok (PerShard 1) (evs ++ [EvReady (n 7%N 0%N) true]) [0; 1]%N = true.
+Proof. repeat split; vm_compute; reflexivity. Qed.
+
 Print Assumptions C12_token.
 Print Assumptions C12_first_target.
 Print Assumptions C12_shard_u16.
@@ -504,4 +531,6 @@ Print Assumptions C12_refill_ok_sound.
 Print Assumptions C12_no_usable_owner_no_cands.
 Print Assumptions C12_conn_accept_sound.
 Print Assumptions C12_conn_accept_complete.
+Print Assumptions C12_prop_obs_complete.
+Print Assumptions C12_prop_obs_sound.
 Print Assumptions C12_pool_wfb_sound.
